@@ -5,7 +5,9 @@
 //   optional multi-step suffix: "|" then steps on the SAME message object
 //     S <n> (k v)*n   setAttributes({...})      U <n> (k v)*n   updateAttributes({...})
 //     A <k> <v>       setAttribute(k, v)        R <k>           removeAttribute(k)
-//     F <flag>        format again with a JsonFormatter(flag): one more record in the output
+//     F <flag>        format again with the formatter of that mode: one more record in the output
+// ONE JsonFormatter object per mode serves the whole run (as JsonFormatter::instance() / formatToJson() do in
+// an application): a record must not depend on what the same formatter object formatted before
 // argv[1] = "latin1": QTextCodec::setCodecForLocale(ISO-8859-1) first (the formatter's QString result
 //   must not depend on the locale codec)
 // output line: <hex of time().toString(Qt::ISODateWithMs)> <threadId> <hex of format()> [<hex of later records>...]
@@ -56,11 +58,10 @@ int main(int argc, char **argv)
     if (argc > 1 && std::string(argv[1]) == "latin1")
         QTextCodec::setCodecForLocale(QTextCodec::codecForName("ISO-8859-1"));
     std::string line;
-    {   // warm-up: another formatter instance in the other mode has already been used in this process
-        // (a formatter must not share its mode with other instances)
+    JsonFormatter indented(false), compact(true);
+    {   // warm-up: both formatter objects have already been used in this process
         QMessageLogContext wctx("w.cpp", 1, "void w()", "warm");
         LogMessage wm(QtInfoMsg, wctx, QStringLiteral("warm-up"));
-        JsonFormatter indented(false), compact(true);
         indented.format(wm); compact.format(wm);
     }
     while (std::getline(std::cin, line)) {
@@ -73,7 +74,7 @@ int main(int argc, char **argv)
         LogMessage m((QtMsgType)type, ctx, unhex(msg));
         if (fmt != "0") m.setFormattedMessage(unhex(fmt));
         for (int i = 0; i < na; i++) { std::string k; is >> k; QVariant v = val(is); m.setAttribute(unhex(k), v); }
-        JsonFormatter jf(flag != 0);
+        JsonFormatter &jf = flag != 0 ? compact : indented;
         std::cout << hex(m.time().toString(Qt::ISODateWithMs)) << " " << m.threadId() << " " << hex(jf.format(m));
         std::string tok;
         if (is >> tok && tok == "|") {
@@ -82,7 +83,7 @@ int main(int argc, char **argv)
                 else if (tok == "U") m.updateAttributes(hash_of(is));
                 else if (tok == "A") { std::string k; is >> k; QVariant v = val(is); m.setAttribute(unhex(k), v); }
                 else if (tok == "R") { std::string k; is >> k; m.removeAttribute(unhex(k)); }
-                else if (tok == "F") { int f2; is >> f2; JsonFormatter again(f2 != 0); std::cout << " " << hex(again.format(m)); }
+                else if (tok == "F") { int f2; is >> f2; JsonFormatter &again = f2 != 0 ? compact : indented; std::cout << " " << hex(again.format(m)); }
             }
         }
         std::cout << "\n";
